@@ -14,7 +14,7 @@ META = dict(
     watchdog_s={"quick": 1500, "thorough": 5400},
     evaluations_counter="executions",
     min={"histories": 100, "faults_injected": 20, "faults_fired": 20, "registry_comparisons": 200, "purity_checks": 300,
-         "library_purity_checks": 200, "forward_exception_exits": 10, "nested_contexts": 10, "twin_equivalence_checks": 100},
+         "library_purity_checks": 200, "forward_exception_exits": 10, "nested_contexts": 10, "twin_equivalence_checks": 100, "weights_only_models": 100},
     anchors=["calibrate.py:Calibration.__enter__", "calibrate.py:Calibration.__exit__",
              "calibrate.py:Calibration.calibrate_input", "calibrate.py:Calibration.calibrate_output",
              "library/ops.py:disable_extensions", "nn/qmodule.py:QModuleMixin.forward"],
@@ -112,10 +112,37 @@ def pure_forward(ctx, model, x, sig, detail):
     """Outside a context: inference changes nothing and is repeatable bit for bit."""
     ctx.count("purity_checks")
     s0 = fp.state_fp(model)
+    xb = fp.plain_bytes(x)
+    # every submodule must leave the tensors it is given untouched (a layer that scales its input in place corrupts
+    # whatever else reads that tensor afterwards)
+    held, dirty = {}, []
+
+    def pre(mod, args):
+        held[id(mod)] = [(a, fp.tensor_fp(a)) for a in args if isinstance(a, torch.Tensor)]
+
+    def post(mod, args, out):
+        for a, f0 in held.pop(id(mod), []):
+            if fp.tensor_fp(a) != f0:
+                dirty.append(type(mod).__name__)
+
+    hs = []
+    for m_ in model.modules():
+        if not list(m_.children()):
+            hs.append(m_.register_forward_pre_hook(pre))
+            hs.append(m_.register_forward_hook(post))
+    try:
+        with torch.no_grad():
+            o1 = lifecycle.out_fp(model(x))
+    finally:
+        for h in hs:
+            h.remove()
+    if dirty:
+        ctx.violation(dict(sig, kind="module_modified_its_input", module=dirty[0]), detail)
     with torch.no_grad():
-        o1 = lifecycle.out_fp(model(x))
         s1 = fp.state_fp(model)
         o2 = lifecycle.out_fp(model(x))
+    if fp.plain_bytes(x) != xb:
+        ctx.violation(dict(sig, kind="inference_modified_its_input"), detail)
     if s1 != s0:
         ctx.violation(dict(sig, kind="inference_changed_model_state"), dict(detail, changed=fp.diff(s0, s1)[:6]))
     if o1 != o2:
@@ -364,6 +391,23 @@ def run(ctx):
                     twin_equivalence(ctx, oq, m2, m2._qv_rebuild, lifecycle.batch(r, shape2, wd),
                                      dict(sig0, exit="exception" if outcome == "raised" else "normal",
                                           fault=f.split(":")[-1]), dict(desc=desc, k=k))
+        # ---- weights-only models (float activations), scalar heads and shared trunks included
+        for _ in range(2):
+            k2 = ["scalar_head", "two_heads", "mlp_small", "conv", "linear"][int(r.integers(5))]
+            wq2 = ["qint8", "qfloat8", "qfloat8_e5m2", "qint4", "qint2"][int(r.integers(5))]
+            if lifecycle.crash_hazard(k2, wd, wq2, None):
+                wq2 = "qfloat8"
+            try:
+                m3, shape3 = lifecycle.build(k2, wd)
+                oq.quantize(m3, weights=oq.qtypes[wq2])
+                if r.random() < 0.5:
+                    oq.freeze(m3)
+                ctx.count("weights_only_models")
+                pure_forward(ctx, m3, lifecycle.batch(r, (int(r.integers(1, 10)),) + tuple(shape3[1:]), wd),
+                             dict(sig0, model="weights_only"), dict(desc=desc, model=k2, weights=wq2))
+            except Exception as e:
+                ctx.violation(dict(sig0, kind="weights_only_inference_raises", exc=type(e).__name__),
+                              dict(desc=desc, model=k2, weights=wq2, msg=str(e)[:200]))
         # ---- frozen / unfrozen inference purity and library purity
         oq.freeze(model)
         for _ in range(3):
